@@ -178,11 +178,25 @@ partial def allCoords : Geom → List Pt
   | .triangle a b c => [a, b, c]
   | .collection gs => (gs.map allCoords).flatten
 
+/-- `impl Area for Polygon` branches on the sign of the *rounded* exterior area; when holes are
+present the result jumps by `2·(Σ|holes| − |ext|)` across that branch. Outside the exact regime an
+exterior whose exact area is below the rounding tolerance is a near-tie (DESIGN §3.3). -/
+def polyNearTie (p : Poly) : Bool :=
+  rabs (specRing p.ext) ≤ tolCoords (polyCoords p) &&
+    sumRat (p.ints.map (fun h => rabs (specRing h))) > 0
+
+partial def geomNearTie : Geom → Bool
+  | .polygon p => polyNearTie p
+  | .multiPolygon ps => ps.any polyNearTie
+  | .collection gs => gs.any geomNearTie
+  | _ => false
+
 def handleArea (inp out : List String) : String :=
   match P.run geometry inp, P.run areaOut out with
   | some g, some o =>
     let exact := isExact g
     let tol := tolGeom g
+    if !exact && geomNearTie g then skip "near-tie-exterior-sign" else
     let ms := signedArea g
     let mu := unsignedArea g
     let formSame := match o.poly, polyForm g with
